@@ -125,7 +125,17 @@ func (w *Wallet) FundPsbt(packet *psbt.Packet, keyScope *waddrmgr.KeyScope,
 		// Make sure all inputs provided are actually ours.
 		packet.Inputs = make([]psbt.PInput, len(packet.UnsignedTx.TxIn))
 
+		seenInputs := make(map[wire.OutPoint]struct{}, len(txIn))
 		for idx := range packet.UnsignedTx.TxIn {
+			// An outpoint can only be spent once by a
+			// transaction.
+			op := packet.UnsignedTx.TxIn[idx].PreviousOutPoint
+			if _, dup := seenInputs[op]; dup {
+				return 0, fmt.Errorf("input %v specified more "+
+					"than once", op)
+			}
+			seenInputs[op] = struct{}{}
+
 			// We don't want to include the witness or any script
 			// on the unsigned TX just yet.
 			packet.UnsignedTx.TxIn[idx].Witness = wire.TxWitness{}
